@@ -267,7 +267,21 @@ def lazy_child_rules(chk, pid):
     up = [e for e in S.events if e.kind == "call" and e.name == "update" and e.recv != SELF]
     chk.need(add and st and up, "%s no longer attaches, sets up and updates the new child" % host)
     c = st[0].recv
-    okc = c[0] == "mcall" and c[2] == "pop" and c[1][0] == "fld" and c[1][2] == "_lazy_children" and canon(c[3][0]) == canon(child) and c[3][1][0] == "new" and c[3][1][1] == "Security"
+    def is_pop(x, default_new):
+        return (x[0] == "mcall" and x[2] == "pop" and x[1][0] == "fld" and x[1][2] == "_lazy_children" and len(x[3]) == 2 and canon(x[3][0]) == canon(child)
+                and ((x[3][1][0] == "new" and x[3][1][1] == "Security") if default_new else canon(x[3][1]) == canon(("none",))))
+
+    def is_default(x):
+        return x[0] == "new" and x[1] == "Security" and len(x[2]) == 1 and canon(x[2][0]) == canon(child)
+    okc = is_pop(c, True)
+    if not okc and c[0] == "ite":
+        # c = pop(child, None); if c is None: c = Security(child)     (declared children are never None)
+        cond, a, b = c[1], c[2], c[3]
+        cc = canon(cond)
+        if cc[0] == "isnone" and is_pop(cc[1], False):
+            okc = is_default(a) and is_pop(b, False)
+        elif cc[0] == "not" and cc[1][0] == "isnone" and is_pop(cc[1][1], False):
+            okc = is_default(b) and is_pop(a, False)
     chk.ob("C19.R3", okc, CORE, host, "lazy-child-source", "the child is the declared lazy child of that name, or a default Security", where=fi.where, found=short(c, 120))
     la = [w for w in S.events if w.kind == "write" and w.field == "lazy_add" and canon(w.obj) == canon(c)]
     ok = bool(la) and canon(la[0].value) == canon(sym.FALSE) and la[0].seq < add[0].seq
